@@ -290,6 +290,10 @@ def run(tier):
         replays += 4
         for key, what in bad:
             rep.violation(key, "%s -b %d: %s" % (comp, bs, what), artefact=d + "/sort.txt", data={"comp": comp, "bs": bs})
+    ev.set("real_results_that_differ_from_the_model_but_satisfy_the_properties(spec drift, no alarm)", len(bpbind.DRIFT))
+    if bpbind.DRIFT:
+        print("SPEC-DRIFT (no alarm): %d real block processor results satisfy the properties but differ from BlockProc's prediction, e.g. %s"
+              % (len(bpbind.DRIFT), json.dumps(bpbind.DRIFT[0])[:300]))
     ev.set("traces_validated_against_impl", replays)
     ev.assumptions += ["pattern language restricted to exact names, bracket sets and a leading '*' (fnmatch itself is trusted)"]
     shutil.rmtree(work, ignore_errors=True)
